@@ -154,7 +154,11 @@ func init() {
 		}
 		os.Chdir(base)
 		defer os.Chdir(origWD)
-		op, np, df, err := intoto.InTotoMatchProducts(link, []string{"."}, []string{"sha256"}, nil, nil)
+		algs := anyStrs(a["algs"])
+		if len(algs) == 0 {
+			algs = []string{"sha256"}
+		}
+		op, np, df, err := intoto.InTotoMatchProducts(link, []string{"."}, algs, nil, nil)
 		if err != nil {
 			return map[string]any{"res": "err"}
 		}
@@ -462,16 +466,30 @@ func runC13(r *Runner, tier string, rng *Rng) {
 		files := map[string]any{}
 		products := map[string]any{}
 		local := map[string]any{}
+		// the algorithms the comparison is asked to compute, and — for some products — ANOTHER
+		// algorithm set in the link (same content or not): hash objects over different algorithm
+		// sets are different (seeded change c13-matchproducts-missing-alg-matches)
+		algSets := [][]string{{"sha256"}, {"sha256"}, {"sha256", "sha512"}, {"sha512"}, {"sha384", "sha256"}}
+		algs := algSets[rng.Intn(len(algSets))]
+		pick := func(b []byte, as []string) map[string]any {
+			all := digestsOf(b, false)
+			m := map[string]any{}
+			for _, a := range as {
+				m[a] = all[a]
+			}
+			return m
+		}
+		contents := map[string][]byte{}
 		for k := rng.Intn(5); k > 0; k-- {
 			name := rng.Pick([]string{"a", "b", "d/c", "d/e", "f"})
 			b := genContent(rng)
 			files[name] = hex.EncodeToString(b)
-			h := sha256.Sum256(b)
-			local[name] = map[string]any{"sha256": hex.EncodeToString(h[:])}
+			contents[name] = b
+			local[name] = pick(b, algs)
 		}
 		for k := rng.Intn(5); k > 0; k-- {
 			name := rng.Pick([]string{"a", "b", "d/c", "d/e", "g"})
-			if l, ok := local[name]; ok && rng.Chance(60) {
+			if l, ok := local[name]; ok && rng.Chance(50) {
 				products[name] = l
 			} else {
 				products[name] = map[string]any{"sha256": genHex(rng, 64)}
@@ -479,9 +497,20 @@ func runC13(r *Runner, tier string, rng *Rng) {
 			if rng.Chance(10) {
 				products[name] = map[string]any{"sha256": genHex(rng, 64), "sha512": "00"}
 			}
+			if b, ok := contents[name]; ok && rng.Chance(30) {
+				other := algSets[rng.Intn(len(algSets))]
+				if rng.Bool() {
+					b = append(append([]byte{}, b...), 'x') // the local file was modified since
+				}
+				products[name] = pick(b, other)
+			}
+		}
+		al := []any{}
+		for _, a := range algs {
+			al = append(al, a)
 		}
 		r.St.Count("matchproducts")
-		batch = append(batch, Case{Op: "matchproducts", Args: map[string]any{"files": files, "products": products, "local": local}, Feat: fmt.Sprintf("mp:%d:%d", len(files), len(products))})
+		batch = append(batch, Case{Op: "matchproducts", Args: map[string]any{"files": files, "products": products, "local": local, "algs": al}, Feat: fmt.Sprintf("mp:%d:%d:%d", len(files), len(products), len(algs))})
 		if len(batch) >= 100 {
 			flush()
 		}
@@ -546,5 +575,5 @@ func runC13(r *Runner, tier string, rng *Rng) {
 		}
 	}
 	flush()
-	r.St.Rule = "generated directory trees (depth <= 4, empty / binary / CR-LF-mix contents, symlinks to files and to symlink-free directories, dangling links, 1-2 roots incl. unclean and missing root paths and single-file roots), every subset class of sha256/384/512 plus unknown names and the empty list, normalisation and follow switches, gitignore-style exclude patterns (verdict = go-pathspec oracle), strip prefixes (symlink-free trees; 1-3 prefixes, also such that the remainder after the first match starts with another prefix); digests from crypto/sha*; plus: normalisation against the model's byte function, match-products three-way difference, before/after discipline of run and record start/stop, symlink cycles (error or correct record, never crash/hang). Class = (switches, shapes, outcome prefix)."
+	r.St.Rule = "generated directory trees (depth <= 4, empty / binary / CR-LF-mix contents, symlinks to files and to symlink-free directories, dangling links, 1-2 roots incl. unclean and missing root paths and single-file roots), every subset class of sha256/384/512 plus unknown names and the empty list, normalisation and follow switches, gitignore-style exclude patterns (verdict = go-pathspec oracle), strip prefixes (symlink-free trees; 1-3 prefixes, also such that the remainder after the first match starts with another prefix); digests from crypto/sha*; plus: normalisation against the model's byte function, match-products three-way difference (requested algorithms and the link's hash objects over equal and different algorithm sets), before/after discipline of run and record start/stop, symlink cycles (error or correct record, never crash/hang). Class = (switches, shapes, outcome prefix)."
 }
